@@ -70,8 +70,6 @@ long xv_cnt_calls; int64_t xv_cnt_ret; int xv_cnt_arg; struct xcm_socket *xv_cnt
 long xv_mm_calls; size_t xv_mm_ret; struct xcm_socket *xv_mm_sock;
 
 /* never assigned: shape of the socket the function under proof is given */
-_Bool xv_via_ux;            /* connection: the live leg is the UX one (else the TLS one)                                */
-_Bool xv_has_ux, xv_has_tls;/* close/cleanup: which sub-sockets exist                                                   */
 struct xcm_tp_proto *xv_proto_ux, *xv_proto_tls;    /* the registered "ux" and "tls" protocols                          */
 
 /* addresses (xcm_addr.c, common_tp.c: other modules) */
@@ -88,26 +86,30 @@ static inline void xv_utls_havoc(void)
     xv_io_len = nondet_size_t(); xv_io_ret = nondet_int(); xv_io_errno = nondet_int(); xv_io_c = nondet_uchar();
     xv_cnt_calls = nondet_long(); xv_cnt_ret = nondet_long(); xv_cnt_arg = nondet_int(); xv_cnt_sock = nondet_voidp();
     xv_mm_calls = nondet_long(); xv_mm_ret = nondet_size_t(); xv_mm_sock = nondet_voidp();
-    xv_via_ux = nondet_bool(); xv_has_ux = nondet_bool(); xv_has_tls = nondet_bool();
+     
     xv_proto_ux = nondet_voidp(); xv_proto_tls = nondet_voidp();
     xv_addr_ptr = nondet_voidp(); xv_addr_len = nondet_size_t(); xv_addr_rv = nondet_int(); xv_addr_errno = nondet_int();
     xv_uxaddr_len = nondet_size_t();
 }
 
 #define XV_GC_MAX (1L << 40)
-#define XV_GC(c) ((c) >= 0 && (c) < XV_GC_MAX)
-/* ranges of the global counters on entry (every sub-socket that exists was created and not destroyed ...) */
-#define XV_SUB_CNT_OK (XV_GC(xv_sub_created) && XV_GC(xv_sub_destroyed) && XV_GC(xv_sub_owing) && XV_GC(xv_sub_live) && XV_GC(xv_sub_leaked) && \
-                       XV_GC(xv_op_seq))
-#define XV_IO_CNT_OK (XV_GC(xv_io_calls) && XV_GC(xv_cnt_calls) && XV_GC(xv_mm_calls))
+#define XV_GC(c) ((c) >= 0 && (c) < XV_GC_MAX)              /* on entry of the function under proof */
+#define XV_GC_IN(c) ((c) >= 0 && (c) < 2 * XV_GC_MAX)       /* on entry of a callee in mid-call (the caller may have moved the counter) */
+/* ranges of the global counters */
+#define XV_SUB_CNT_LIM(R) (R(xv_sub_created) && R(xv_sub_destroyed) && R(xv_sub_owing) && R(xv_sub_live) && R(xv_sub_leaked) && R(xv_op_seq))
+#define XV_IO_CNT_LIM(R) (R(xv_io_calls) && R(xv_cnt_calls) && R(xv_mm_calls))
+#define XV_SUB_CNT_OK XV_SUB_CNT_LIM(XV_GC_IN)
+#define XV_IO_CNT_OK XV_IO_CNT_LIM(XV_GC_IN)
 /* ranges of the per-object counters */
-#define SUB_RANGES(p) (XV_GC(XS(p)->closes) && XV_GC(XS(p)->cleanups) && XV_GC(XS(p)->tries) && XV_GC(XS(p)->updates) && XV_GC(XS(p)->fins))
+#define SUB_RANGES_LIM(p, R) (R(XS(p)->closes) && R(XS(p)->cleanups) && R(XS(p)->tries) && R(XS(p)->updates) && R(XS(p)->fins))
+#define SUB_RANGES(p) SUB_RANGES_LIM(p, XV_GC_IN)
+#define SUB_RANGES_ENTRY(p) SUB_RANGES_LIM(p, XV_GC)
 #define SUB_ST(p, state) (XS(p)->st == (state))
 #define SUB_OWES(p) (SUB_ST(p, XV_ST_INIT) || SUB_ST(p, XV_ST_LIVE))
 /* a sub-socket as utls_init leaves it: initialised, nothing attempted, never closed */
 #define SUB_FRESH_INIT(p, k) (SUB_ST(p, XV_ST_INIT) && XS(p)->kind == (k) && XS(p)->closes == 0 && XS(p)->cleanups == 0 && XS(p)->tries == 0 && \
                               XV_GC(XS(p)->updates) && XV_GC(XS(p)->fins))
-#define SUB_IS_LIVE(p, k) (SUB_ST(p, XV_ST_LIVE) && XS(p)->kind == (k) && SUB_RANGES(p))
+#define SUB_IS_LIVE(p, k) (SUB_ST(p, XV_ST_LIVE) && XS(p)->kind == (k) && SUB_RANGES_ENTRY(p))
 
 /* ================================================================================================================ */
 /* part 1: OTHER MODULES, ASSUMED                                                                                   */
@@ -259,11 +261,11 @@ __CPROVER_ensures(xv_mm_calls == __CPROVER_old(xv_mm_calls) + 1 && xv_mm_ret == 
 
 /* ---- addresses: common_tp.c (utls_to_tls = xcm_addr_parse_utls + xcm_addr_make_tls), xcm_addr.c, xcm.c.
  * A TLS address is "tls:" <host> ":" <port>; the host is an IP literal or a DNS name of up to 253 characters
- * (xcm_dns_is_valid_name), so the string has 7 .. 4+253+1+5 characters.  Only its length and first characters are modelled. */
+ * (xcm_dns_is_valid_name), so the string has 7 .. 4+253+1+5 characters.  Only its length (a ghost) and first characters are modelled:
+ * UTLS never looks into the strings, it only strips the "tls:" prefix. */
 #define UT_TLS_ADDR_MIN 7
 #define UT_TLS_ADDR_MAX (4 + 253 + 1 + 5)
-#define UT_IS_TLS_ADDR(a, n) ((n) >= UT_TLS_ADDR_MIN && (n) <= UT_TLS_ADDR_MAX && (a)[0] == 't' && (a)[1] == 'l' && (a)[2] == 's' && (a)[3] == ':' && \
-                              (a)[4] != 0 && (a)[n] == 0)
+#define UT_IS_TLS_ADDR(a, n) ((n) >= UT_TLS_ADDR_MIN && (n) <= UT_TLS_ADDR_MAX && (a)[0] == 't' && (a)[1] == 'l' && (a)[2] == 's' && (a)[3] == ':' && (a)[4] != 0)
 int utls_to_tls(const char *utls_addr, char *tls_addr, size_t capacity)
 __CPROVER_requires(capacity == XCM_ADDR_MAX + 1 && __CPROVER_w_ok(tls_addr, capacity))
 __CPROVER_assigns(xv_errno, xv_addr_ptr, xv_addr_len, xv_addr_rv, xv_addr_errno, __CPROVER_object_upto(tls_addr, capacity))
@@ -307,14 +309,14 @@ __CPROVER_ensures(__CPROVER_return_value == 0 && *port != 0)
 /* xcm_addr_compat.c -> addr_make_ux_uxf (job addr.addr_make_ux_uxf): "ux:" <name>; EINVAL when the name has more than
  * UX_NAME_MAX (107) characters, ENAMETOOLONG when the result does not fit.  The name handed in must be the TLS address
  * produced last without its "tls:" prefix (precondition = obligation at the call site in map_tls_to_ux) */
+#define UT_UX_NAME_MAX 107      /* = UX_NAME_MAX = UNIX_PATH_MAX - 1 (xcm_addr_limits.h, linux/un.h) */
 int xcm_addr_ux_make(const char *ux_name, char *ux_addr_s, size_t capacity)
 __CPROVER_requires(ux_name == xv_addr_ptr + 4 && xv_addr_len >= UT_TLS_ADDR_MIN && xv_addr_len <= UT_TLS_ADDR_MAX)
 __CPROVER_requires(capacity == XCM_ADDR_MAX + 1 && __CPROVER_w_ok(ux_addr_s, capacity))
 __CPROVER_assigns(xv_errno, xv_uxaddr_len, __CPROVER_object_upto(ux_addr_s, capacity))
 __CPROVER_ensures(__CPROVER_return_value == 0 || (__CPROVER_return_value == -1 && (xv_errno == EINVAL || xv_errno == ENAMETOOLONG)))
-__CPROVER_ensures(xv_addr_len - 4 <= UX_NAME_MAX ==> __CPROVER_return_value == 0)
-__CPROVER_ensures(__CPROVER_return_value == 0 ==> (xv_uxaddr_len == xv_addr_len - 1 && ux_addr_s[0] == 'u' && ux_addr_s[1] == 'x' && ux_addr_s[2] == ':' && \
-                                                   ux_addr_s[xv_uxaddr_len] == 0))
+__CPROVER_ensures(xv_addr_len - 4 <= UT_UX_NAME_MAX ==> __CPROVER_return_value == 0)
+__CPROVER_ensures(__CPROVER_return_value == 0 ==> (xv_uxaddr_len == xv_addr_len - 1 && ux_addr_s[0] == 'u' && ux_addr_s[1] == 'x' && ux_addr_s[2] == ':'))
 ;
 
 /* ================================================================================================================ */
@@ -326,31 +328,60 @@ __CPROVER_ensures(__CPROVER_return_value == 0 ==> (xv_uxaddr_len == xv_addr_len 
 #define NU(s) (UT(s)->ux_socket)
 #define NT(s) (UT(s)->tls_socket)
 /* the accounting covers at least the sub-sockets the function is handed: `owing` of them owe a close, `live` of them are live */
-#define UT_GHOSTS(owing, live) (XV_SUB_CNT_OK && XV_IO_CNT_OK && xv_sub_owing >= (owing) && xv_sub_live >= (live) && \
+#define UT_GHOSTS(owing, live) (XV_SUB_CNT_LIM(XV_GC) && XV_IO_CNT_LIM(XV_GC) && xv_sub_owing >= (owing) && xv_sub_live >= (live) && \
                                 xv_proto_ux != NULL && xv_proto_tls != NULL && xv_proto_ux != xv_proto_tls)
 #define UT_D(c, d) ((c) == __CPROVER_old(c) + (d))       /* counter c moved by d */
 #define UT_ACCOUNT(dcreated, ddestroyed, dowing, dlive) (UT_D(xv_sub_created, dcreated) && UT_D(xv_sub_destroyed, ddestroyed) && UT_D(xv_sub_owing, dowing) && \
                                                          UT_D(xv_sub_live, dlive) && UT_D(xv_sub_leaked, 0))
 #define UT_ACC_ASSIGNS xv_sub_created, xv_sub_destroyed, xv_sub_owing, xv_sub_live, xv_sub_leaked, xv_op_seq, xv_won_kind
 
+/* ---- get_proto / ux_proto / tls_proto: protocol lookup with a per-protocol cache in a function-local static -------------- */
+#define UT_PROTO_OF(name) ((name)[0] == 'u' ? xv_proto_ux : xv_proto_tls)
+#define UT_IS_UX_OR_TLS(name) (((name)[0] == 'u' && (name)[1] == 'x' && (name)[2] == 0) || ((name)[0] == 't' && (name)[1] == 'l' && (name)[2] == 's' && (name)[3] == 0))
+static struct xcm_tp_proto *get_proto(const char *name, struct xcm_tp_proto **cached_proto)
+__CPROVER_requires(__CPROVER_is_fresh(name, 4) && UT_IS_UX_OR_TLS(name) && __CPROVER_is_fresh(cached_proto, sizeof(*cached_proto)))
+/* the cache invariant: empty, or the protocol of that name */
+__CPROVER_requires(*cached_proto == NULL || *cached_proto == UT_PROTO_OF(name))
+__CPROVER_requires(xv_proto_ux != NULL && xv_proto_tls != NULL)
+__CPROVER_assigns(*cached_proto)
+__CPROVER_ensures(__CPROVER_return_value == UT_PROTO_OF(name) && *cached_proto == __CPROVER_return_value)
+;
+/* ASSUMED (not enforceable: a function-local static cannot be named in a contract, and DFCC starts it with an arbitrary value):
+ * the caches of ux_proto()/tls_proto() start as NULL (C initialisation) and are written by get_proto only, which keeps the
+ * invariant above (job utls.get_proto); hence */
+static struct xcm_tp_proto *ux_proto(void)
+__CPROVER_requires(1)
+__CPROVER_assigns()
+__CPROVER_ensures(__CPROVER_return_value == xv_proto_ux)
+;
+static struct xcm_tp_proto *tls_proto(void)
+__CPROVER_requires(1)
+__CPROVER_assigns()
+__CPROVER_ensures(__CPROVER_return_value == xv_proto_tls)
+;
+
 /* ---- utls_init --------------------------------------------------------------------------------------------------- */
 static int utls_init(struct xcm_socket *s, struct xcm_socket *parent)
-__CPROVER_requires(__CPROVER_is_fresh(s, UT_SIZE) && (parent != NULL ==> __CPROVER_is_fresh(parent, UT_SIZE)) && UT_GHOSTS_OK)
+__CPROVER_requires(__CPROVER_is_fresh(s, UT_SIZE) && (parent != NULL ==> __CPROVER_is_fresh(parent, UT_SIZE)) && UT_GHOSTS(0, 0))
 __CPROVER_assigns(xv_errno, UT_ACC_ASSIGNS, UT(s)->ux_socket, UT(s)->tls_socket)
 __CPROVER_ensures(UT_INIT_RV(__CPROVER_return_value))
-/* PO[C08] utls_init.two_initialised_sub_sockets: success = one new UX and one new TLS sub-socket, both initialised (they owe a close), nothing else */
-__CPROVER_ensures(__CPROVER_return_value == 0 ==> (__CPROVER_is_fresh(NU(s), SUB_SIZE) && __CPROVER_is_fresh(NT(s), SUB_SIZE) && \
-                  SUB_FRESH_INIT(NU(s), XV_K_UX) && SUB_FRESH_INIT(NT(s), XV_K_TLS) && UT_ACCOUNT(2, 0, 2, 0)))
+/* PO[C08] utls_init.two_new_sub_sockets: success = two NEW objects (distinct from each other and from everything else) */
+__CPROVER_ensures(__CPROVER_return_value == 0 ==> (__CPROVER_is_fresh(NU(s), SUB_SIZE) && __CPROVER_is_fresh(NT(s), SUB_SIZE)))
+/* PO[C08] utls_init.one_ux_one_tls_initialised: one of the "ux", one of the "tls" protocol, both initialised (they owe a close), nothing attempted on them */
+__CPROVER_ensures(__CPROVER_return_value == 0 ==> (SUB_FRESH_INIT(NU(s), XV_K_UX) && SUB_FRESH_INIT(NT(s), XV_K_TLS)))
+/* PO[C08] utls_init.accounting: exactly two created, none destroyed, none live yet */
+__CPROVER_ensures(__CPROVER_return_value == 0 ==> UT_ACCOUNT(2, 0, 2, 0))
 /* PO[C08] utls_init.failure_leaves_nothing: everything created is destroyed again, after the close it owed (if any) */
 __CPROVER_ensures(__CPROVER_return_value != 0 ==> (xv_sub_created - xv_sub_destroyed == __CPROVER_old(xv_sub_created) - __CPROVER_old(xv_sub_destroyed) && \
                   UT_D(xv_sub_owing, 0) && UT_D(xv_sub_live, 0) && UT_D(xv_sub_leaked, 0)))
 /* the sub-sockets share the socket's type and xpoll instance, are never blocking (C05), never auto-updated, carry no control
  * interface of their own, and inherit from the matching sub-socket of the parent */
-__CPROVER_ensures(__CPROVER_return_value == 0 ==> ( \
-        NU(s)->type == s->type && NT(s)->type == s->type && NU(s)->xpoll == s->xpoll && NT(s)->xpoll == s->xpoll && \
-        !NU(s)->is_blocking && !NT(s)->is_blocking && !NU(s)->auto_update && !NT(s)->auto_update && !NU(s)->auto_enable_ctl && !NT(s)->auto_enable_ctl && \
-        NU(s)->proto == xv_proto_ux && NT(s)->proto == xv_proto_tls && \
-        XS(NU(s))->parent == (parent != NULL ? UT(parent)->ux_socket : NULL) && XS(NT(s))->parent == (parent != NULL ? UT(parent)->tls_socket : NULL)))
+__CPROVER_ensures(__CPROVER_return_value == 0 ==> (NU(s)->type == s->type && NT(s)->type == s->type && NU(s)->xpoll == s->xpoll && NT(s)->xpoll == s->xpoll))
+__CPROVER_ensures(__CPROVER_return_value == 0 ==> (!NU(s)->is_blocking && !NT(s)->is_blocking && !NU(s)->auto_update && !NT(s)->auto_update && \
+                                                   !NU(s)->auto_enable_ctl && !NT(s)->auto_enable_ctl))
+__CPROVER_ensures(__CPROVER_return_value == 0 ==> (NU(s)->proto == xv_proto_ux && NT(s)->proto == xv_proto_tls))
+__CPROVER_ensures(__CPROVER_return_value == 0 ==> (XS(NU(s))->parent == (parent != NULL ? UT(parent)->ux_socket : NULL) && \
+                                                   XS(NT(s))->parent == (parent != NULL ? UT(parent)->tls_socket : NULL)))
 ;
 
 /* ---- a UTLS socket between init and connect/server/accept: both sub-sockets exist and are initialised ----------- */
@@ -371,7 +402,7 @@ __CPROVER_ensures(__CPROVER_return_value == 0 ==> ( \
 
 /* ---- utls_connect -------------------------------------------------------------------------------------------------- */
 static int utls_connect(struct xcm_socket *s, const char *remote_addr)
-__CPROVER_requires(UT_PRISTINE_REQ(s) && __CPROVER_is_fresh(remote_addr, 8) && UT_GHOSTS_OK)
+__CPROVER_requires(UT_PRISTINE_REQ(s) && __CPROVER_is_fresh(remote_addr, 8) && UT_GHOSTS(2, 0))
 __CPROVER_assigns(xv_errno, UT_ACC_ASSIGNS, UT_SUBS_ASSIGNS(s), xv_addr_ptr, xv_addr_len, xv_addr_rv, xv_addr_errno, xv_uxaddr_len)
 __CPROVER_ensures(__CPROVER_return_value == 0 || (__CPROVER_return_value == -1 && xv_errno > 0))
 /* PO[C01,C08] utls_connect.exactly_one_leg: success = exactly one sub-socket left, live; the other closed (unless its own connect failed) and destroyed */
@@ -394,7 +425,7 @@ __CPROVER_ensures(__CPROVER_return_value == -1 ==> (xv_addr_rv != 0 ? xv_errno =
 
 /* ---- utls_server --------------------------------------------------------------------------------------------------- */
 static int utls_server(struct xcm_socket *s, const char *local_addr)
-__CPROVER_requires(UT_PRISTINE_REQ(s) && __CPROVER_is_fresh(local_addr, 8) && UT_GHOSTS_OK)
+__CPROVER_requires(UT_PRISTINE_REQ(s) && __CPROVER_is_fresh(local_addr, 8) && UT_GHOSTS(2, 0))
 __CPROVER_assigns(xv_errno, UT_ACC_ASSIGNS, UT_SUBS_ASSIGNS(s), xv_addr_ptr, xv_addr_len, xv_addr_rv, xv_addr_errno, xv_uxaddr_len)
 __CPROVER_ensures(__CPROVER_return_value == 0 || (__CPROVER_return_value == -1 && xv_errno > 0))
 /* PO[C08] utls_server.success_both_live: both sub-servers are the old objects, bound, never closed; nothing created or destroyed */
@@ -419,7 +450,7 @@ __CPROVER_ensures(__CPROVER_return_value == -1 ==> (xv_addr_rv != 0 ? xv_errno =
 #define UT_SERVER_REQ(s) (__CPROVER_is_fresh(s, UT_SIZE) && __CPROVER_is_fresh(UT(s)->ux_socket, SUB_SIZE) && __CPROVER_is_fresh(UT(s)->tls_socket, SUB_SIZE) && \
                           SUB_IS_LIVE(UT(s)->ux_socket, XV_K_UX) && SUB_IS_LIVE(UT(s)->tls_socket, XV_K_TLS))
 static int utls_accept(struct xcm_socket *conn_s, struct xcm_socket *server_s)
-__CPROVER_requires(UT_PRISTINE_REQ(conn_s) && UT_SERVER_REQ(server_s) && UT_GHOSTS_OK)
+__CPROVER_requires(UT_PRISTINE_REQ(conn_s) && UT_SERVER_REQ(server_s) && UT_GHOSTS(4, 2))
 /* the frame: the server socket and its two sub-servers are in no assigns clause */
 __CPROVER_assigns(xv_errno, UT_ACC_ASSIGNS, UT_SUBS_ASSIGNS(conn_s))
 __CPROVER_ensures(__CPROVER_return_value == 0 || (__CPROVER_return_value == -1 && xv_errno > 0))
@@ -436,45 +467,62 @@ __CPROVER_ensures(__CPROVER_return_value == -1 ==> xv_errno == XS(OT(conn_s))->o
 ;
 
 /* ---- utls_close / utls_cleanup ------------------------------------------------------------------------------------- */
-/* any state in which close may be called (xcm_tp.h): after init, after a successful connect/accept (one leg), after a
- * successful server (both); i.e. every sub-socket that exists owes a close.  NULL socket: no-op */
-#define UT_HAS(flag, p) (((flag) ==> (__CPROVER_is_fresh(p, SUB_SIZE) && SUB_OWES(p) && SUB_RANGES(p))) && (!(flag) ==> (p) == NULL))
-#define UT_CLOSABLE_REQ(s) ((s) == NULL || (__CPROVER_is_fresh(s, UT_SIZE) && UT_HAS(xv_has_ux, UT(s)->ux_socket) && UT_HAS(xv_has_tls, UT(s)->tls_socket)))
-#define UT_N_EXIST ((xv_has_ux ? 1 : 0) + (xv_has_tls ? 1 : 0))
-#define UT_WAS_LIVE(old_st) ((old_st) == XV_ST_LIVE ? 1 : 0)
-#define UT_ENDED(s, how, other) ( \
-        NU(s) == NULL && NT(s) == NULL && \
-        (xv_has_ux ==> (SUB_ST(OU(s), XV_ST_DESTROYED) && XS(OU(s))->how == __CPROVER_old(XS(UT(s)->ux_socket)->how) + 1 && \
-                        XS(OU(s))->other == __CPROVER_old(XS(UT(s)->ux_socket)->other))) && \
-        (xv_has_tls ==> (SUB_ST(OT(s), XV_ST_DESTROYED) && XS(OT(s))->how == __CPROVER_old(XS(UT(s)->tls_socket)->how) + 1 && \
-                         XS(OT(s))->other == __CPROVER_old(XS(UT(s)->tls_socket)->other))) && \
-        UT_ACCOUNT(0, UT_N_EXIST, -UT_N_EXIST, \
-                   -((xv_has_ux ? UT_WAS_LIVE(__CPROVER_old(XS(UT(s)->ux_socket)->st)) : 0) + (xv_has_tls ? UT_WAS_LIVE(__CPROVER_old(XS(UT(s)->tls_socket)->st)) : 0))))
-#define UT_END_ASSIGNS(s) \
-__CPROVER_assigns(UT_ACC_ASSIGNS) \
-__CPROVER_assigns(s != NULL: UT(s)->ux_socket, UT(s)->tls_socket) \
-__CPROVER_assigns(s != NULL && xv_has_ux: *XS(UT(s)->ux_socket)) \
-__CPROVER_assigns(s != NULL && xv_has_tls: *XS(UT(s)->tls_socket))
+/* any state in which close may be called (xcm_tp.h): after init (both sub-sockets, initialised), after a successful server
+ * (both, live), after a successful connect/accept (one leg, live); i.e. every sub-socket that exists owes a close.  NULL: no-op.
+ * One job per shape (a -D of the job; see UT_LEG above for why): @both (default), @ux (-DUT_SHAPE_UX), @tls (-DUT_SHAPE_TLS),
+ * @null (-DUT_SHAPE_NULL: no socket, or no sub-socket) */
+#define UT_END_SUB_REQ(p) (__CPROVER_is_fresh(p, SUB_SIZE) && SUB_OWES(p) && SUB_RANGES_ENTRY(p))
+#define UT_END_SUB_LIVE(s, f) (SUB_ST(UT(s)->f, XV_ST_LIVE) ? 1 : 0)
+#define UT_END_SUB_WAS_LIVE(s, f) (__CPROVER_old(XS(UT(s)->f)->st) == XV_ST_LIVE ? 1 : 0)
+/* the sub-socket that was in field f: `how` (closes / cleanups) went up by one, `other` did not move, and it is destroyed */
+#define UT_ENDED_SUB(s, f, how, other) (SUB_ST(__CPROVER_old(UT(s)->f), XV_ST_DESTROYED) && \
+        XS(__CPROVER_old(UT(s)->f))->how == __CPROVER_old(XS(UT(s)->f)->how) + 1 && XS(__CPROVER_old(UT(s)->f))->other == __CPROVER_old(XS(UT(s)->f)->other))
+#if defined(UT_SHAPE_NULL)
+#define UT_CLOSABLE_REQ(s) (((s) == NULL || (__CPROVER_is_fresh(s, UT_SIZE) && UT(s)->ux_socket == NULL && UT(s)->tls_socket == NULL)) && UT_GHOSTS(0, 0))
+#define UT_END_ASSIGNS(s) __CPROVER_assigns(UT_ACC_ASSIGNS) __CPROVER_assigns(s != NULL: UT(s)->ux_socket, UT(s)->tls_socket)
+#define UT_ENDED(s, how, other) (UT_ACCOUNT(0, 0, 0, 0) && ((s) != NULL ==> (NU(s) == NULL && NT(s) == NULL)))
+#elif defined(UT_SHAPE_UX)
+#define UT_CLOSABLE_REQ(s) (__CPROVER_is_fresh(s, UT_SIZE) && UT_END_SUB_REQ(UT(s)->ux_socket) && UT(s)->tls_socket == NULL && UT_GHOSTS(1, UT_END_SUB_LIVE(s, ux_socket)))
+#define UT_END_ASSIGNS(s) __CPROVER_assigns(UT_ACC_ASSIGNS, UT(s)->ux_socket, UT(s)->tls_socket, *XS(UT(s)->ux_socket))
+#define UT_ENDED(s, how, other) (NU(s) == NULL && NT(s) == NULL && UT_ENDED_SUB(s, ux_socket, how, other) && UT_ACCOUNT(0, 1, -1, -UT_END_SUB_WAS_LIVE(s, ux_socket)))
+#elif defined(UT_SHAPE_TLS)
+#define UT_CLOSABLE_REQ(s) (__CPROVER_is_fresh(s, UT_SIZE) && UT_END_SUB_REQ(UT(s)->tls_socket) && UT(s)->ux_socket == NULL && UT_GHOSTS(1, UT_END_SUB_LIVE(s, tls_socket)))
+#define UT_END_ASSIGNS(s) __CPROVER_assigns(UT_ACC_ASSIGNS, UT(s)->ux_socket, UT(s)->tls_socket, *XS(UT(s)->tls_socket))
+#define UT_ENDED(s, how, other) (NU(s) == NULL && NT(s) == NULL && UT_ENDED_SUB(s, tls_socket, how, other) && UT_ACCOUNT(0, 1, -1, -UT_END_SUB_WAS_LIVE(s, tls_socket)))
+#else
+#define UT_CLOSABLE_REQ(s) (__CPROVER_is_fresh(s, UT_SIZE) && UT_END_SUB_REQ(UT(s)->ux_socket) && UT_END_SUB_REQ(UT(s)->tls_socket) && \
+                            UT_GHOSTS(2, UT_END_SUB_LIVE(s, ux_socket) + UT_END_SUB_LIVE(s, tls_socket)))
+#define UT_END_ASSIGNS(s) __CPROVER_assigns(UT_ACC_ASSIGNS, UT(s)->ux_socket, UT(s)->tls_socket, *XS(UT(s)->ux_socket), *XS(UT(s)->tls_socket))
+#define UT_ENDED(s, how, other) (NU(s) == NULL && NT(s) == NULL && UT_ENDED_SUB(s, ux_socket, how, other) && UT_ENDED_SUB(s, tls_socket, how, other) && \
+                                 UT_ACCOUNT(0, 2, -2, -(UT_END_SUB_WAS_LIVE(s, ux_socket) + UT_END_SUB_WAS_LIVE(s, tls_socket))))
+#endif
 static void utls_close(struct xcm_socket *s)
-__CPROVER_requires(UT_CLOSABLE_REQ(s) && UT_GHOSTS_OK)
+__CPROVER_requires(UT_CLOSABLE_REQ(s))
 UT_END_ASSIGNS(s)
-/* PO[C08] utls_close.each_closed_once_then_destroyed: every existing sub-socket is closed (not cleaned up) exactly once, then destroyed; nothing leaks, errno survives */
-__CPROVER_ensures(s != NULL ==> UT_ENDED(s, closes, cleanups))
-__CPROVER_ensures(s == NULL ==> UT_ACCOUNT(0, 0, 0, 0))
+/* PO[C08] utls_close.each_closed_once_then_destroyed: every existing sub-socket is closed (not cleaned up) exactly once, then destroyed; both fields are cleared; nothing leaks; errno is in no assigns clause */
+__CPROVER_ensures(UT_ENDED(s, closes, cleanups))
 ;
 static void utls_cleanup(struct xcm_socket *s)
-__CPROVER_requires(UT_CLOSABLE_REQ(s) && UT_GHOSTS_OK)
+__CPROVER_requires(UT_CLOSABLE_REQ(s))
 UT_END_ASSIGNS(s)
 /* PO[C08] utls_cleanup.each_cleaned_once_then_destroyed: every existing sub-socket is cleaned up (NEVER closed: a forked child must not touch the owner's connection) exactly once, then destroyed */
-__CPROVER_ensures(s != NULL ==> UT_ENDED(s, cleanups, closes))
-__CPROVER_ensures(s == NULL ==> UT_ACCOUNT(0, 0, 0, 0))
+__CPROVER_ensures(UT_ENDED(s, cleanups, closes))
 ;
 
 /* ---- an established UTLS connection: exactly one leg, live ---------------------------------------------------------- */
-#define UT_CONN_REQ(s) (__CPROVER_is_fresh(s, UT_SIZE) && \
-        (xv_via_ux ==> (__CPROVER_is_fresh(UT(s)->ux_socket, SUB_SIZE) && SUB_IS_LIVE(UT(s)->ux_socket, XV_K_UX) && UT(s)->tls_socket == NULL)) && \
-        (!xv_via_ux ==> (__CPROVER_is_fresh(UT(s)->tls_socket, SUB_SIZE) && SUB_IS_LIVE(UT(s)->tls_socket, XV_K_TLS) && UT(s)->ux_socket == NULL)))
-#define UT_LEG(s) (xv_via_ux ? UT(s)->ux_socket : UT(s)->tls_socket)
+/* Which leg is the live one is a -D of the job (variants @ux: default, @tls: -DUT_LEG_TLS): with both shapes in one formula every
+ * clause about "the live leg" goes through a pointer that is NULL in the other shape, which made the formulas ten times larger.
+ * (A ghost pointer ASSUMED equal to the field does not help: CBMC cannot dereference through it, trap (a).) */
+#ifdef UT_LEG_TLS
+#define UT_LEG(s) (UT(s)->tls_socket)
+#define UT_NOLEG(s) (UT(s)->ux_socket)
+#define UT_LEG_KIND XV_K_TLS
+#else
+#define UT_LEG(s) (UT(s)->ux_socket)
+#define UT_NOLEG(s) (UT(s)->tls_socket)
+#define UT_LEG_KIND XV_K_UX
+#endif
+#define UT_CONN_REQ(s) (__CPROVER_is_fresh(s, UT_SIZE) && __CPROVER_is_fresh(UT_LEG(s), SUB_SIZE) && SUB_IS_LIVE(UT_LEG(s), UT_LEG_KIND) && UT_NOLEG(s) == NULL)
 #define UT_LEN_MAX (1UL << 33)      /* buffers above this size are not explored (is_fresh needs a bound); beyond what an int can report */
 #define UT_BUF(p, n) __CPROVER_is_fresh((p), (n) == 0 ? 1 : (n))
 
@@ -486,7 +534,7 @@ __CPROVER_ensures(__CPROVER_return_value == UT_LEG(s) && __CPROVER_return_value 
 ;
 
 static int utls_send(struct xcm_socket *__restrict s, const void *__restrict buf, size_t len)
-__CPROVER_requires(UT_CONN_REQ(s) && len <= UT_LEN_MAX && UT_BUF(buf, len) && UT_GHOSTS_OK)
+__CPROVER_requires(UT_CONN_REQ(s) && len <= UT_LEN_MAX && UT_BUF(buf, len) && UT_GHOSTS(1, 1))
 /* the frame: errno and the record of the sub-socket's send; NOT the socket, its legs, the message, the accounting */
 __CPROVER_assigns(SUB_IO_ASSIGNS)
 /* PO[C01,C03] utls_send.one_send_on_the_live_leg: exactly one send, on the live sub-socket, of exactly (buf, len) */
@@ -498,7 +546,7 @@ __CPROVER_ensures((xv_j >= 0 && (size_t)xv_j < len) ==> xv_io_c == UT_U8(buf)[xv
 ;
 
 static int utls_receive(struct xcm_socket *__restrict s, void *__restrict buf, size_t capacity)
-__CPROVER_requires(UT_CONN_REQ(s) && capacity <= UT_LEN_MAX && UT_BUF(buf, capacity) && UT_GHOSTS_OK)
+__CPROVER_requires(UT_CONN_REQ(s) && capacity <= UT_LEN_MAX && UT_BUF(buf, capacity) && UT_GHOSTS(1, 1))
 __CPROVER_assigns(SUB_IO_ASSIGNS)
 __CPROVER_assigns(capacity > 0: __CPROVER_object_upto(buf, capacity))
 /* PO[C01] utls_receive.one_receive_on_the_live_leg: exactly one receive, on the live sub-socket, into exactly (buf, capacity) */
@@ -510,61 +558,62 @@ __CPROVER_ensures(__CPROVER_return_value == xv_io_ret && xv_errno == xv_io_errno
 __CPROVER_ensures((xv_j >= 0 && xv_j < (long)__CPROVER_return_value) ==> UT_U8(buf)[xv_j] == xv_io_c)
 ;
 
+/* utls_finish and utls_update serve both socket types.  One job per shape (-DUT_T_SERVER selects the server shape; the default
+ * is the connection shape with the leg chosen as above) */
+#ifdef UT_T_SERVER
+#define UT_TYPED_REQ(s) (UT_SERVER_REQ(s) && (s)->type == xcm_socket_type_server)
+#define UT_TYPED_ASSIGNS(s, rec) __CPROVER_assigns(rec(UT(s)->ux_socket), rec(UT(s)->tls_socket))
+#else
+#define UT_TYPED_REQ(s) (UT_CONN_REQ(s) && (s)->type == xcm_socket_type_conn)
+#define UT_TYPED_ASSIGNS(s, rec) __CPROVER_assigns(rec(UT_LEG(s)))
+#endif
 /* ---- utls_finish: connection = the live leg's finish; server = both sub-servers, UX first, stopping at the first failure */
+#define UT_FINISHED_ONCE(p, rv) (XS(p)->fins == __CPROVER_old(XS(p)->fins) + 1 && (rv) == XS(p)->fin_rv && xv_errno == XS(p)->fin_errno)
+#define UT_FIN_REC(p) XS(p)->fins, XS(p)->fin_rv, XS(p)->fin_errno
 static int utls_finish(struct xcm_socket *s)
-__CPROVER_requires(__CPROVER_is_fresh(s, UT_SIZE) && (s->type == xcm_socket_type_conn || s->type == xcm_socket_type_server) && UT_GHOSTS_OK)
-__CPROVER_requires((s->type == xcm_socket_type_conn && xv_via_ux) ==> \
-                   (__CPROVER_is_fresh(UT(s)->ux_socket, SUB_SIZE) && SUB_IS_LIVE(UT(s)->ux_socket, XV_K_UX) && UT(s)->tls_socket == NULL))
-__CPROVER_requires((s->type == xcm_socket_type_conn && !xv_via_ux) ==> \
-                   (__CPROVER_is_fresh(UT(s)->tls_socket, SUB_SIZE) && SUB_IS_LIVE(UT(s)->tls_socket, XV_K_TLS) && UT(s)->ux_socket == NULL))
-__CPROVER_requires(s->type == xcm_socket_type_server ==> \
-                   (__CPROVER_is_fresh(UT(s)->ux_socket, SUB_SIZE) && __CPROVER_is_fresh(UT(s)->tls_socket, SUB_SIZE) && \
-                    SUB_IS_LIVE(UT(s)->ux_socket, XV_K_UX) && SUB_IS_LIVE(UT(s)->tls_socket, XV_K_TLS)))
+__CPROVER_requires(UT_TYPED_REQ(s) && UT_GHOSTS(1, 1))
 __CPROVER_assigns(xv_errno)
-__CPROVER_assigns(UT(s)->ux_socket != NULL: XS(UT(s)->ux_socket)->fins, XS(UT(s)->ux_socket)->fin_rv, XS(UT(s)->ux_socket)->fin_errno)
-__CPROVER_assigns(UT(s)->tls_socket != NULL: XS(UT(s)->tls_socket)->fins, XS(UT(s)->tls_socket)->fin_rv, XS(UT(s)->tls_socket)->fin_errno)
+UT_TYPED_ASSIGNS(s, UT_FIN_REC)
+#ifndef UT_T_SERVER
 /* PO[C01,C04] utls_finish.conn_is_the_live_legs_finish: one finish on the live leg, result and errno unchanged */
-__CPROVER_ensures(s->type == xcm_socket_type_conn ==> (XS(UT_LEG(s))->fins == __CPROVER_old(XS(UT_LEG(s))->fins) + 1 && \
-                  __CPROVER_return_value == XS(UT_LEG(s))->fin_rv && xv_errno == XS(UT_LEG(s))->fin_errno))
+__CPROVER_ensures(UT_FINISHED_ONCE(UT_LEG(s), __CPROVER_return_value))
+#else
 /* PO[C04] utls_finish.server_both: success only if both sub-servers finished; the first failure is reported with its errno */
-__CPROVER_ensures(s->type == xcm_socket_type_server ==> ( \
-        XS(NU(s))->fins == __CPROVER_old(XS(UT(s)->ux_socket)->fins) + 1 && \
+__CPROVER_ensures(XS(NU(s))->fins == __CPROVER_old(XS(UT(s)->ux_socket)->fins) + 1 && \
         XS(NT(s))->fins == __CPROVER_old(XS(UT(s)->tls_socket)->fins) + (XS(NU(s))->fin_rv < 0 ? 0 : 1) && \
         (XS(NU(s))->fin_rv < 0 ? (__CPROVER_return_value == -1 && xv_errno == XS(NU(s))->fin_errno) : \
-         XS(NT(s))->fin_rv < 0 ? (__CPROVER_return_value == -1 && xv_errno == XS(NT(s))->fin_errno) : __CPROVER_return_value == 0)))
+         XS(NT(s))->fin_rv < 0 ? (__CPROVER_return_value == -1 && xv_errno == XS(NT(s))->fin_errno) : __CPROVER_return_value == 0))
+#endif
+/* the socket itself (type, legs) is in no assigns clause */
+__CPROVER_ensures(__CPROVER_return_value == 0 || __CPROVER_return_value == -1)
 ;
 
 /* ---- utls_update (C04/C16): the awaited condition reaches the sub-socket(s) BEFORE their update runs ----------------- */
+#define UT_UPDATED_ONCE(s, p) ((p)->condition == (s)->condition && XS(p)->upd_cond == (s)->condition && XS(p)->updates == __CPROVER_old(XS(p)->updates) + 1)
+#define UT_UPD_REC(p) (p)->condition, XS(p)->updates, XS(p)->upd_cond
 static void utls_update(struct xcm_socket *s)
-__CPROVER_requires(__CPROVER_is_fresh(s, UT_SIZE) && (s->type == xcm_socket_type_conn || s->type == xcm_socket_type_server) && UT_GHOSTS_OK)
-__CPROVER_requires((s->type == xcm_socket_type_conn && xv_via_ux) ==> \
-                   (__CPROVER_is_fresh(UT(s)->ux_socket, SUB_SIZE) && SUB_IS_LIVE(UT(s)->ux_socket, XV_K_UX) && UT(s)->tls_socket == NULL))
-__CPROVER_requires((s->type == xcm_socket_type_conn && !xv_via_ux) ==> \
-                   (__CPROVER_is_fresh(UT(s)->tls_socket, SUB_SIZE) && SUB_IS_LIVE(UT(s)->tls_socket, XV_K_TLS) && UT(s)->ux_socket == NULL))
-__CPROVER_requires(s->type == xcm_socket_type_server ==> \
-                   (__CPROVER_is_fresh(UT(s)->ux_socket, SUB_SIZE) && __CPROVER_is_fresh(UT(s)->tls_socket, SUB_SIZE) && \
-                    SUB_IS_LIVE(UT(s)->ux_socket, XV_K_UX) && SUB_IS_LIVE(UT(s)->tls_socket, XV_K_TLS)))
+__CPROVER_requires(UT_TYPED_REQ(s) && UT_GHOSTS(1, 1))
 /* the frame: of the sub-sockets only `condition` and the update record; not errno, not the socket's own condition */
-__CPROVER_assigns(UT(s)->ux_socket != NULL: UT(s)->ux_socket->condition, XS(UT(s)->ux_socket)->updates, XS(UT(s)->ux_socket)->upd_cond)
-__CPROVER_assigns(UT(s)->tls_socket != NULL: UT(s)->tls_socket->condition, XS(UT(s)->tls_socket)->updates, XS(UT(s)->tls_socket)->upd_cond)
+UT_TYPED_ASSIGNS(s, UT_UPD_REC)
+#ifndef UT_T_SERVER
 /* PO[C04,C16] utls_update.conn_forwards_condition: the live leg awaits exactly what the application awaits, and its update ran once, seeing that condition */
-__CPROVER_ensures(s->type == xcm_socket_type_conn ==> (UT_LEG(s)->condition == s->condition && XS(UT_LEG(s))->upd_cond == s->condition && \
-                  XS(UT_LEG(s))->updates == __CPROVER_old(XS(UT_LEG(s))->updates) + 1))
+__CPROVER_ensures(UT_UPDATED_ONCE(s, UT_LEG(s)))
+#else
 /* PO[C04,C16] utls_update.server_forwards_condition_to_both */
-__CPROVER_ensures(s->type == xcm_socket_type_server ==> ( \
-        NU(s)->condition == s->condition && XS(NU(s))->upd_cond == s->condition && XS(NU(s))->updates == __CPROVER_old(XS(UT(s)->ux_socket)->updates) + 1 && \
-        NT(s)->condition == s->condition && XS(NT(s))->upd_cond == s->condition && XS(NT(s))->updates == __CPROVER_old(XS(UT(s)->tls_socket)->updates) + 1))
+__CPROVER_ensures(UT_UPDATED_ONCE(s, UT(s)->ux_socket) && UT_UPDATED_ONCE(s, UT(s)->tls_socket))
+#endif
+__CPROVER_ensures(s->condition == __CPROVER_old(s->condition))
 ;
 
 /* ---- utls_get_cnt (C17), utls_max_msg: those of the live leg --------------------------------------------------------- */
 static int64_t utls_get_cnt(struct xcm_socket *conn_s, enum xcm_tp_cnt cnt)
-__CPROVER_requires(UT_CONN_REQ(conn_s) && UT_GHOSTS_OK)
+__CPROVER_requires(UT_CONN_REQ(conn_s) && UT_GHOSTS(1, 1))
 __CPROVER_assigns(xv_cnt_calls, xv_cnt_ret, xv_cnt_arg, xv_cnt_sock)
 /* PO[C17] utls_get_cnt.the_live_legs_counter: one query of the live sub-socket for the SAME counter; its value is returned unchanged */
 __CPROVER_ensures(xv_cnt_calls == __CPROVER_old(xv_cnt_calls) + 1 && xv_cnt_sock == UT_LEG(conn_s) && xv_cnt_arg == (int)cnt && __CPROVER_return_value == xv_cnt_ret)
 ;
 static size_t utls_max_msg(struct xcm_socket *conn_s)
-__CPROVER_requires(UT_CONN_REQ(conn_s) && UT_GHOSTS_OK)
+__CPROVER_requires(UT_CONN_REQ(conn_s) && UT_GHOSTS(1, 1))
 __CPROVER_assigns(xv_mm_calls, xv_mm_ret, xv_mm_sock)
 /* PO[C01,C03] utls_max_msg.the_live_legs_limit: the limit reported is the one the live leg enforces */
 __CPROVER_ensures(xv_mm_calls == __CPROVER_old(xv_mm_calls) + 1 && xv_mm_sock == UT_LEG(conn_s) && __CPROVER_return_value == xv_mm_ret)
